@@ -178,3 +178,15 @@ Theorem C05_ir_placement : forall its,
                Forall (fun n => match n with NPoll _ | NTick _ => False | _ => True end) user.
 Proof. exact ir_placement. Qed.
 Print Assumptions C05_ir_placement.
+
+(* no button is polled twice and no LCD ticked twice per pass (the injected lists are duplicate-free);
+   with unique device names, every Button declared by a top-level statement - before the main loop
+   or at the top of its body - is among the polls, on its own pin *)
+Theorem C05_every_button_polled_once : forall its,
+  nodup_names (p_polls (transl its)) = true /\ nodup_names (p_ticks (transl its)) = true /\
+  (nodup_names (map d_name (p_tab (transl its))) = true ->
+   forall d pin r, In d (p_top_setup (transl its) ++ p_top_loop (transl its)) -> is_button d = true ->
+     d_pins d = pin :: r ->
+     mem_name (d_name d) (p_polls (transl its)) = true /\ pin_of (transl its) (d_name d) = [pin]).
+Proof. exact every_button_polled. Qed.
+Print Assumptions C05_every_button_polled_once.
